@@ -25,7 +25,7 @@ def search(job):
             except Exception as e:      # noqa
                 obs = "exception %s" % type(e).__name__
             if obs != exp:
-                out.append({"kind": "F", "which": "equal", "args": [a, b], "expected": exp, "observed": obs})
+                out.append({"kind": "S" if isinstance(obs, str) else "F", "which": "equal", "args": [a, b], "expected": exp, "observed": obs})
                 if len(out) >= 3:
                     break
     else:
@@ -40,7 +40,7 @@ def search(job):
                 except Exception as e:      # noqa
                     obs = "exception %s" % type(e).__name__
                 if obs != exp:
-                    out.append({"kind": "F", "which": "uniq", "args": [xs], "expected": exp, "observed": obs})
+                    out.append({"kind": "S" if isinstance(obs, str) else "F", "which": "uniq", "args": [xs], "expected": exp, "observed": obs})
                     if len(out) >= 3:
                         break
             if len(out) >= 3:
